@@ -90,14 +90,14 @@ NextInstr ==
   /\ items' = Append(items, Item(st)) /\ st' = Start(st.pc) /\ UNCHANGED <<kind, d, scr>>
 
 NextRaw == IF RLen(scr) < RawFull THEN 0..255 ELSE RawAlpha
-Next ==
-  \/ kind = "root" /\ \E len \in Lens :
-        \E first \in (IF len = 1 /\ AllOneByte THEN 0..255 ELSE IF len = 0 THEN {0} ELSE Firsts) :
-          \E fill \in (IF len <= 1 THEN {0} ELSE Fills) : ChooseData(len, first, fill)
-  \/ kind = "enc" /\ st = Idle /\ \E k \in Cuts(RLen(scr)) : Truncate(k)
-  \/ kind = "enc" /\ st = Idle /\ \E op \in PushOps : Alternative(op)
-  \/ kind \in {"root", "raw"} /\ st = Idle /\ RLen(scr) < RawMax /\ \E x \in NextRaw : AppendRaw(x)
-  \/ Begin \/ DecStep \/ NextInstr
+\* the disjuncts of Next are named so that TLC's coverage reports them one by one
+Choose == kind = "root" /\ \E len \in Lens :
+            \E first \in (IF len = 1 /\ AllOneByte THEN 0..255 ELSE IF len = 0 THEN {0} ELSE Firsts) :
+              \E fill \in (IF len <= 1 THEN {0} ELSE Fills) : ChooseData(len, first, fill)
+Cut == kind = "enc" /\ st = Idle /\ \E k \in Cuts(RLen(scr)) : Truncate(k)
+Alt == kind = "enc" /\ st = Idle /\ \E op \in PushOps : Alternative(op)
+Raw == kind \in {"root", "raw"} /\ st = Idle /\ RLen(scr) < RawMax /\ \E x \in NextRaw : AppendRaw(x)
+Next == Choose \/ Cut \/ Alt \/ Raw \/ Begin \/ DecStep \/ NextInstr
 Spec == Init /\ [][Next]_vars
 
 -----------------------------------------------------------------------------
